@@ -24,6 +24,7 @@ import (
 	"sync"
 	"time"
 
+	"verifharness/internal/corpus"
 	"verifharness/internal/vrun"
 )
 
@@ -45,6 +46,8 @@ type witness struct {
 	Ops         int        `json:"ops_per_program"`
 	MaxDistinct int        `json:"max_distinct_programs"`
 	Round       roundSpec  `json:"round"`
+	SweepFace   string     `json:"sweep_face,omitempty"` // metadata sweep: the face ("file#index"), parsed fresh, 4 goroutines
+	SweepSeen   []string   `json:"sweep_faces_seen,omitempty"`
 	FontsUsed   []fontRec  `json:"fonts_used"`
 	Report      *raceBlock `json:"race_report,omitempty"`
 	Occurrences int        `json:"occurrences,omitempty"`
@@ -194,10 +197,10 @@ func (j *job) roundOf(b *raceBlock) (r *rec, inProgress bool) {
 	var lastBegin *rec
 	for i := range j.recs {
 		rc := &j.recs[i]
-		if rc.Type == "round" && rc.LogBegin <= b.Offset && b.Offset < rc.LogEnd {
+		if (rc.Type == "round" || rc.Type == "sface") && rc.LogBegin <= b.Offset && b.Offset < rc.LogEnd {
 			return rc, false
 		}
-		if rc.Type == "begin" && rc.LogBegin <= b.Offset {
+		if (rc.Type == "begin" || rc.Type == "sbegin") && rc.LogBegin <= b.Offset {
 			lastBegin = rc
 		}
 	}
@@ -255,6 +258,7 @@ func judge(run *vrun.Run, jobs []*job, t *tally) {
 		round    *rec
 		n        int
 		rounds   map[int]bool
+		faces    map[string]bool
 		variants map[string]string
 	}
 	groups := map[string]*group{}
@@ -282,13 +286,17 @@ func judge(run *vrun.Run, jobs []*job, t *tally) {
 			g := groups[b.Key1]
 			if g == nil {
 				rc, _ := j.roundOf(b)
-				g = &group{first: b, job: j, round: rc, rounds: map[int]bool{}, variants: map[string]string{}}
+				g = &group{first: b, job: j, round: rc, rounds: map[int]bool{}, faces: map[string]bool{}, variants: map[string]string{}}
 				groups[b.Key1] = g
 				order = append(order, b.Key1)
 			}
 			g.n++
 			if rc, _ := j.roundOf(b); rc != nil {
-				g.rounds[rc.Round] = true
+				if isSweepRec(rc) {
+					g.faces[rc.Face] = true
+				} else {
+					g.rounds[rc.Round] = true
+				}
 			}
 			if b.Key2 != g.first.Key2 && len(g.variants) < 4 {
 				if _, ok := g.variants[b.Key2]; !ok {
@@ -299,6 +307,21 @@ func judge(run *vrun.Run, jobs []*job, t *tally) {
 		// result comparison
 		for i := range j.recs {
 			rc := &j.recs[i]
+			if rc.Type == "sface" {
+				for k := range rc.Mismatches {
+					m := rc.Mismatches[k]
+					if m.NonDet {
+						run.Inconclusive("query " + m.Kind + " is not deterministic even when run alone")
+						run.Note("sweep of %s: query %s: two solo runs on fresh parses disagree; not judged", rc.Face, m.Kind)
+						continue
+					}
+					w := witness{What: "result-differs", Source: j.name, Seed: j.spec.Seed, SweepFace: rc.Face, Mismatch: &m}
+					run.Violation("C17/result-differs/"+m.Kind,
+						fmt.Sprintf("metadata sweep of %s (fresh parse, %d goroutines): goroutine %d, query %s returned digest %#x while running concurrently, %#x when the same list runs alone on another fresh parse (two solo runs agree)",
+							rc.Face, rc.N, m.Goroutine, m.Kind, m.Conc, m.Solo), w)
+				}
+				continue
+			}
 			if rc.Type != "round" {
 				continue
 			}
@@ -321,7 +344,7 @@ func judge(run *vrun.Run, jobs []*job, t *tally) {
 			fatal := fatalFromStderr(j.errPath)
 			var cur *rec
 			for i := range j.recs {
-				if j.recs[i].Type == "begin" {
+				if j.recs[i].Type == "begin" || j.recs[i].Type == "sbegin" {
 					cur = &j.recs[i]
 				}
 			}
@@ -329,7 +352,10 @@ func judge(run *vrun.Run, jobs []*job, t *tally) {
 			case fatal.goText != "":
 				w := witness{What: "fatal", Source: j.name, Seed: j.spec.Seed, Ops: j.spec.Ops, MaxDistinct: j.spec.MaxDistinct, Fatal: fatal.text}
 				where := "before the first round"
-				if cur != nil {
+				if cur != nil && isSweepRec(cur) {
+					w.SweepFace = cur.Face
+					where = "in the metadata sweep of " + cur.Face
+				} else if cur != nil {
 					w.Round = j.specOfRound(cur.Round)
 					where = fmt.Sprintf("in round %d", cur.Round)
 				}
@@ -357,13 +383,23 @@ func judge(run *vrun.Run, jobs []*job, t *tally) {
 		w := witness{What: "race", Source: g.job.name, Seed: g.job.spec.Seed, Ops: g.job.spec.Ops, MaxDistinct: g.job.spec.MaxDistinct,
 			Report: b, Occurrences: g.n}
 		where := "outside a round"
-		if g.round != nil {
+		if g.round != nil && isSweepRec(g.round) {
+			w.SweepFace = g.round.Face
+			where = fmt.Sprintf("metadata sweep of %s (fresh parse, %d goroutines)", g.round.Face, sweepGoroutines)
+		} else if g.round != nil {
 			w.Round = g.job.specOfRound(g.round.Round)
 			w.FontsUsed = g.round.Fonts
 			where = fmt.Sprintf("round %d (N=%d, GOMAXPROCS=%d)", g.round.Round, w.Round.N, w.Round.Procs)
 		}
 		for r := range g.rounds {
 			w.RoundsSeen = append(w.RoundsSeen, r)
+		}
+		for f := range g.faces {
+			w.SweepSeen = append(w.SweepSeen, f)
+		}
+		sort.Strings(w.SweepSeen)
+		if len(w.SweepSeen) > 30 {
+			w.SweepSeen = w.SweepSeen[:30]
 		}
 		sort.Ints(w.RoundsSeen)
 		if len(w.RoundsSeen) > 30 {
@@ -382,6 +418,8 @@ func judge(run *vrun.Run, jobs []*job, t *tally) {
 				where, g.n, b.Key1, strings.Join(b.innermostGoText(), " <-> ")), w)
 	}
 }
+
+func isSweepRec(r *rec) bool { return r.Type == "sface" || r.Type == "sbegin" }
 
 type fatalInfo struct{ head, goText, text string }
 
@@ -490,6 +528,7 @@ func Main() {
 	nRounds := run.Pick(36, 600)
 	raceChildren := run.Pick(5, 15)
 	overlapChildren := run.Pick(3, 12)
+	sweepChildren := run.Pick(4, 8)
 	maxDistinct := 16
 	watchdog := time.Duration(run.Pick(20, 120)) * time.Minute
 	stall := time.Duration(run.Pick(2, 6)) * time.Minute
@@ -547,7 +586,21 @@ func Main() {
 		ovls = append(ovls, &job{name: fmt.Sprintf("overlap%02d", c), watchdog: watchdog, stall: stall,
 			spec: childSpec{Mode: "overlap", Seed: run.Seed, Ops: opsPerProgram, MaxDistinct: maxDistinct, Rounds: planRounds(run.Seed, lo, hi, cands)}})
 	}
+	// third pass: all-fonts metadata sweep (race detector, fresh parse per face)
+	swFaces, swFiles := sweepFaces(run.Pick(4<<20, maxRareFontFileSize))
+	var sweeps []*job
+	for c := 0; c < sweepChildren; c++ {
+		var mine []faceID
+		for i := c; i < len(swFaces); i += sweepChildren {
+			mine = append(mine, swFaces[i])
+		}
+		if len(mine) > 0 {
+			sweeps = append(sweeps, &job{name: fmt.Sprintf("sweep%02d", c), watchdog: watchdog, stall: stall,
+				spec: childSpec{Mode: "sweep", Seed: run.Seed, Faces: mine, Repeats: run.Pick(2, 4)}})
+		}
+	}
 	all := append(append([]*job{}, jobs...), ovls...)
+	all = append(all, sweeps...)
 	t0 := time.Now()
 	runJobs(wd, all, len(all))
 	passWall := time.Since(t0)
@@ -613,6 +666,39 @@ func Main() {
 			}
 		}
 	}
+	var swDone, swUnusable, swMismatch int
+	var swOps int64
+	swSeen := map[string]bool{}
+	for _, sj := range sweeps {
+		for i := range sj.recs {
+			rc := &sj.recs[i]
+			if rc.Type != "sface" {
+				continue
+			}
+			if rc.Flag != "" {
+				if !swSeen[rc.Face] {
+					swUnusable++
+				}
+				swSeen[rc.Face] = true
+				continue
+			}
+			swDone++
+			swSeen[rc.Face] = true
+			swOps += rc.Ops
+			swMismatch += rc.MismatchTotal
+		}
+	}
+	swBlocks := 0
+	for _, sj := range sweeps {
+		swBlocks += len(sj.blocks)
+	}
+	run.Extra("metadata_sweep", map[string]any{"corpus_files": swFiles, "faces_planned": len(swFaces), "faces_swept_distinct": len(swSeen) - swUnusable,
+		"sweeps_executed": swDone, "faces_not_loadable": swUnusable, "goroutines_per_sweep": "4 (even repetitions) / 2 (odd repetitions)", "repetitions_per_face": run.Pick(2, 4), "queries_per_goroutine": len(sweepQueryNames),
+		"query_executions": swOps, "digest_mismatches": swMismatch, "race_report_blocks": swBlocks, "child_processes": len(sweeps), "queries": sweepQueryNames})
+	run.CoverN("sweep-faces", int64(len(swSeen)-swUnusable))
+	if len(swSeen) < len(swFaces) && run.Violations() == 0 {
+		t.forced = append(t.forced, fmt.Sprintf("the metadata sweep visited only %d of %d faces", len(swSeen), len(swFaces)))
+	}
 	if ovlRounds < nRounds && run.Violations() == 0 {
 		t.forced = append(t.forced, fmt.Sprintf("the overlap pass completed only %d of %d rounds", ovlRounds, nRounds))
 	}
@@ -658,7 +744,7 @@ func Main() {
 	run.Extra("race_report_blocks", map[string]int{"total": t.blocksTotal, "with_go_text_frames": t.blocksGoText, "harness_only": t.blocksHarness,
 		"distinct_by_api_entry_pair": len(t.entryPairs), "distinct_by_stack_pair": len(t.stackPairs)})
 	run.Extra("overlap_distinct_pairs", map[string]int{"(opA,opB,font kind)": len(pairKind), "(opA,opB,font file)": len(pairFont), "(opA,opB)": len(pairOps)})
-	run.Extra("child_processes", map[string]any{"race": len(jobs), "overlap": len(ovls), "selftest": 1})
+	run.Extra("child_processes", map[string]any{"race": len(jobs), "overlap": len(ovls), "sweep": len(sweeps), "selftest": 1})
 	run.Extra("timing_informational", map[string]any{"passes_wall_s": passWall.Seconds(), "sum_concurrent_ms": concMs, "sum_alone_ms": soloMs, "sum_font_load_ms": loadMs})
 	if len(t.forced) > 0 {
 		seen := map[string]bool{}
@@ -685,6 +771,7 @@ func level() vrun.Level {
 		Rule: "evaluations = operations executed by the goroutine programs of the race pass (programs of " + strconv.Itoa(opsPerProgram) + " operations, each compared with the same program run alone afterwards in the same process; in 64-goroutine rounds 16 distinct programs are each run by 4 goroutines). " +
 			"A child process that observes no race writes no race log file, so race_log_files_read=0 is the normal outcome; coverage.selftest shows that a deliberate harness race did reach a log file and the parser. " +
 			"distinct_nontrivial = distinct (operation kind A, operation kind B, font kind slot) triples observed simultaneously active on the same shared font by the atomic active-operation table of the second pass; floor " + strconv.Itoa(pairFloor) + ". " +
+			"Third pass (coverage.metadata_sweep): every face of every corpus file is parsed fresh and queried by 4 goroutines with a fixed list of metadata/metric/glyph queries under the race detector, digests compared with the same list run alone on another fresh parse. " +
 			"It is forced to 0 (run inconclusive) when coverage.inconclusive_reason is present: harness-only race report, race detector self-test failure, child death, watchdog.",
 		Assumptions: []string{
 			"the Go race detector (happens-before, reports only races that the executed schedule exposes; no alarm means none observed, not none possible)",
@@ -715,6 +802,10 @@ func replay(run *vrun.Run, wd string) {
 	if _, err := vrun.ReadReplay(run.Replay, &w); err != nil {
 		fmt.Println("replay:", err)
 		os.Exit(2)
+	}
+	if w.SweepFace != "" {
+		replaySweep(run, wd, &w)
+		return
 	}
 	if len(w.Round.Slots) == 0 {
 		fmt.Println("INCONCLUSIVE property=C17 the witness carries no round to re-execute")
@@ -831,4 +922,64 @@ func probeCorpus(run *vrun.Run, wd string, cands map[string][]faceID) map[string
 	wg.Wait()
 	run.Extra("faces_probed", probed)
 	return excluded
+}
+
+func parseFaceID(s string) (faceID, bool) {
+	k := strings.LastIndex(s, "#")
+	if k < 0 {
+		return faceID{}, false
+	}
+	idx, err := strconv.Atoi(s[k+1:])
+	if err != nil {
+		return faceID{}, false
+	}
+	return faceID{File: s[:k], Index: idx}, true
+}
+
+func replaySweep(run *vrun.Run, wd string, w *witness) {
+	id, ok := parseFaceID(w.SweepFace)
+	if !ok {
+		fmt.Println("replay: bad sweep face", w.SweepFace)
+		os.Exit(2)
+	}
+	const reps = 20
+	j := &job{name: "replay", watchdog: 30 * time.Minute, stall: 5 * time.Minute,
+		spec: childSpec{Mode: "sweep", Seed: w.Seed, Faces: []faceID{id}, Repeats: reps}}
+	j.run(wd)
+	t := &tally{entryPairs: map[string]int{}, stackPairs: map[string]int{}}
+	judge(run, []*job{j}, t)
+	for i := range j.recs {
+		if j.recs[i].Type == "sface" {
+			run.Eval(j.recs[i].N)
+		}
+	}
+	if run.Violations() == 0 {
+		msg := fmt.Sprintf("not observed again in %d sweeps of %s (fresh parse, %d goroutines); the recorded report stays in the replay file", reps, w.SweepFace, sweepGoroutines)
+		run.Inconclusive(msg)
+		fmt.Printf("INCONCLUSIVE property=C17 %s\n", msg)
+	}
+	for _, f := range t.forced {
+		run.Inconclusive(f)
+		fmt.Printf("INCONCLUSIVE property=C17 %s\n", f)
+	}
+	run.Finish(vrun.Level{Level: "exploration", Rule: "replay"})
+}
+
+// sweepFaces lists every face of every corpus file up to maxBytes.
+func sweepFaces(maxBytes int) (faces []faceID, files int) {
+	for _, f := range corpus.Files() {
+		data := f.Bytes()
+		if len(data) == 0 || len(data) > maxBytes {
+			continue
+		}
+		lds, err := safeLoaders(data)
+		if err != nil || len(lds) == 0 {
+			continue
+		}
+		files++
+		for i := range lds {
+			faces = append(faces, faceID{f.ID, i})
+		}
+	}
+	return faces, files
 }
